@@ -44,7 +44,7 @@ func init() {
 		Real:       []string{"seehuhn.de/go/pdf Reader, Extractor cache, Decode, DecodeExclusive, StoreOrLoadPair, DecodeStream, zlib pools; font/cmap and font/mapping caches (working tree, instrumented copies via overlay)", "goroutines and channels"},
 		Stub:       []string{"task scheduler (who runs next)", "sync.Mutex acquisition order and sync.Pool policy in the instrumented packages", "io.ReaderAt (yield point, transient fault)", "Getter wrapper (yield point)"},
 		Quick:      core.Budget{Runs: 16000, Secs: 150},
-		Thorough:   core.Budget{Runs: 1200000, Secs: 1500},
+		Thorough:   core.Budget{Runs: 1200000, Secs: 900},
 		Run:        Run,
 		Corners:    corners,
 		WantProbes: []string{"task parked on a channel", "cache race lost (returned value differs from own candidate)", "pool hit"},
